@@ -6,6 +6,8 @@ import (
 	"testing"
 
 	"github.com/jotaen/klog/klog"
+	"github.com/jotaen/klog/klog/app"
+	"github.com/jotaen/klog/klog/app/cli"
 	"github.com/jotaen/klog/klog/app/cli/util"
 	"github.com/jotaen/klog/klog/parser"
 	"github.com/jotaen/klog/klog/service"
@@ -477,6 +479,48 @@ func checkC13(c caseC13) (Outcome, error) {
 				return out, fmt.Errorf("klog json with the query lists (date, #entries) %v, the reference selection is %v\n%s", gotRows, wantRows, where())
 			}
 		}
+	}
+	// every command that takes the filter flags applies them: its output on the file with the
+	// query equals its output, without a query, on the file reduced to the reference selection
+	if _, _, unsure, _ := refSelect(c.Doc, c.Query, c.Env.NowDay, true, true, true); !unsure {
+		reduced := model.Doc{}
+		for ri, r := range c.Doc.Records {
+			if !selAll[ri] {
+				continue
+			}
+			nr := r
+			nr.Entries = nil
+			for _, ei := range entsAll[ri] {
+				nr.Entries = append(nr.Entries, r.Entries[ei])
+			}
+			reduced.Records = append(reduced.Records, nr)
+		}
+		reducedText, _ := model.Render(reduced, model.Layout{FinalEOL: true})
+		hq := newInlineHarness(now, text, 1, "no_colour")
+		hr := newInlineHarness(now, reducedText, 1, "no_colour")
+		fargs, _ := buildFilterArgs(c.Query)
+		noWarn, noStyle := util.WarnArgs{NoWarn: true}, util.NoStyleArgs{NoStyle: true}
+		agg := []string{"day", "week", "month", "quarter", "year"}[((len(text)+c.Env.NowDay)%5+5)%5]
+		pairs := []struct {
+			name    string
+			with    interface{ Run(app.Context) app.Error }
+			without interface{ Run(app.Context) app.Error }
+		}{
+			{"print", &cli.Print{FilterArgs: fargs, WarnArgs: noWarn, NoStyleArgs: noStyle}, &cli.Print{WarnArgs: noWarn, NoStyleArgs: noStyle}},
+			{"total --diff", &cli.Total{FilterArgs: fargs, DiffArgs: util.DiffArgs{Diff: true}, WarnArgs: noWarn, NoStyleArgs: noStyle}, &cli.Total{DiffArgs: util.DiffArgs{Diff: true}, WarnArgs: noWarn, NoStyleArgs: noStyle}},
+			{"report --aggregate " + agg, &cli.Report{AggregateBy: agg, FilterArgs: fargs, WarnArgs: noWarn, NoStyleArgs: noStyle}, &cli.Report{AggregateBy: agg, WarnArgs: noWarn, NoStyleArgs: noStyle}},
+			{"tags --values --count", &cli.Tags{Values: true, Count: true, FilterArgs: fargs, WarnArgs: noWarn, NoStyleArgs: noStyle}, &cli.Tags{Values: true, Count: true, WarnArgs: noWarn, NoStyleArgs: noStyle}},
+		}
+		for _, pr := range pairs {
+			a, b := hq.Run(pr.with), hr.Run(pr.without)
+			if (a.Err == nil) != (b.Err == nil) {
+				return out, fmt.Errorf("klog %s: with the query err=%v, on the reduced file err=%v\n%s", pr.name, a.Err, b.Err, where())
+			}
+			if a.Err == nil && a.Out != b.Out {
+				return out, fmt.Errorf("klog %s with the query differs from klog %s on the file reduced to the matching records and entries\n--- with query\n%s\n--- reduced file\n%s\nreduced text: %s\n%s", pr.name, pr.name, a.Out, b.Out, quoteShort(reducedText), where())
+			}
+		}
+		out.Label("commands-apply-filter")
 	}
 	// single clauses and the conjunction law
 	dateOnly, tagOnly, typeOnly := args, args, args
